@@ -105,6 +105,19 @@ func Exec(in *Inst, o m.Op) (res *Result) {
 				res.GenIDs = append(res.GenIDs, docs[i].ObjectId())
 			}
 		}
+	case "insertOne":
+		doc := Doc(o.Docs[0])
+		id, err := db.InsertOne(o.Coll, doc)
+		res.Err = err
+		res.Names = []string{id}
+		if idv, has := o.Docs[0]["_id"]; !has || idv == "" {
+			res.GenIDs = append(res.GenIDs, doc.ObjectId())
+		}
+	case "iterateDocs":
+		res.Err = db.IterateDocs(Query(o.Q), func(d *document.Document) error {
+			res.Docs = append(res.Docs, DocMap(d))
+			return nil
+		})
 	case "save":
 		doc := Doc(o.Docs[0])
 		res.Err = db.Save(o.Coll, doc)
